@@ -10,7 +10,7 @@ package comdoc
 //@   modifies mem(sat)
 //@
 //@ func (*ComDoc).makeFreeSectors
-//@   property C18
+//@   property C18 C03
 //@   nopanic
 //@   allocbound 0 4 * count
 //@   allocbound 1 4 * count + 4 * r.SectorSize
@@ -44,11 +44,11 @@ package comdoc
 //@   ensures @other_table_untouched (short ==> sameslice(r.SAT, old(r.SAT))) && (!short ==> sameslice(r.SSAT, old(r.SSAT)))
 //@
 //@ func (*ComDoc).sectorToOffset
-//@   property C18
+//@   property C18 C03
 //@   modifies nothing
 //@
 //@ func (*ComDoc).writeSector
-//@   property C18
+//@   property C18 C03
 //@   modifies mem(r.sectorBuf)
 //@
 //@ func (*ComDoc).addStream
@@ -66,14 +66,14 @@ package comdoc
 //@   ensures @empty_stream_has_no_sectors ret1 == nil && len(contents) == 0 ==> ret0 == -2
 //@
 //@ func (*ComDoc).DeleteFile
-//@   property C18
+//@   property C18 C03
 //@   loop 0 sig "for _, index := range r.rootFiles" invariant keepFiles == nil || allocated(keepFiles)
 //@   modifies r.rootFiles, r.changed, mem(r.Files), mem(r.SAT), mem(r.SSAT)
 //@   before call freeSectors(tbl, first): assert @chain_freed_in_the_table_that_holds_it first == item.NextSector && \
 //@        (item.StreamSize < r.Header.MinStdStreamSize ==> sameslice(tbl, r.SSAT)) && (item.StreamSize >= r.Header.MinStdStreamSize ==> sameslice(tbl, r.SAT))
 //@
 //@ func (*ComDoc).AddFile
-//@   property C18
+//@   property C18 C03
 //@   requires (r.SectorSize == 512 || r.SectorSize == 4096) && r.ShortSectorSize >= 1 && r.ShortSectorSize <= r.SectorSize && len(contents) <= 1073741824
 //@   requires len(r.SAT) <= 1073741824 && len(r.SSAT) <= 1073741824 && !samearr(r.SAT, r.SSAT)
 //@   ghost deleted bool = false
@@ -82,7 +82,7 @@ package comdoc
 //@   before call (*ComDoc).newDirEnt(_, n, sz, first): assert @directory_entry_describes_the_stored_stream n == name && sz == len(contents)
 //@
 //@ func (*ComDoc).allocSectorTables
-//@   property C18
+//@   property C18 C03
 //@   requires r.SectorSize == 512 || r.SectorSize == 4096
 //@   ensures @every_allocation_table_sector_is_listed (r.SectorSize == 512 ==> len(r.SAT) / 128 <= len(r.MSAT)) && (r.SectorSize == 4096 ==> len(r.SAT) / 1024 <= len(r.MSAT))
 //@   ensures @listed_sectors_fit_the_header_and_the_msat_sectors (r.SectorSize == 512 ==> len(r.MSAT) <= 109 + len(r.msatList) * 127) && (r.SectorSize == 4096 ==> len(r.MSAT) <= 109 + len(r.msatList) * 1023)
